@@ -1524,6 +1524,9 @@ class Annotation:
         tracks = defaultdict(dict)
         labels = set()
         for segment, track, label in records:
+            # do not add empty track
+            if not segment:
+                continue
             tracks[segment][track] = label
             labels.add(label)
         annotation._tracks = SortedDict(tracks)
